@@ -158,6 +158,44 @@ fn scenarios(thorough: bool) -> Vec<Scn> {
         }
         add("oversized_header_list", St::Ready, frame(T_HEADERS, 5, 1, &big), Want::Either(vec![CALM, REFUSED, PROTOCOL, 2]));
     }
+    // --- the same floods with zero-length frames, and every windowed counter at exactly its threshold and one above:
+    // what counts is the frame (type, flags, stream), never the size of its payload
+    {
+        let open_block = |flags: u8, payload: &[u8]| frame(T_HEADERS, flags, 1, payload);
+        add("continuation_flood_empty", St::Ready, [open_block(1, &[0x82]), many(4, frame(T_CONT, 0, 1, &[]))].concat(), Want::Conn(vec![CALM], false));
+        add("continuation_flood_empty_after_empty_headers", St::Ready, [open_block(1, &[]), many(4, frame(T_CONT, 0, 1, &[]))].concat(), Want::Conn(vec![CALM], false));
+        add(
+            "continuation_flood_mixed",
+            St::Ready,
+            [open_block(1, &[0x82]), frame(T_CONT, 0, 1, &[0x84]), frame(T_CONT, 0, 1, &[]), frame(T_CONT, 0, 1, &[0x87]), frame(T_CONT, 0, 1, &[])].concat(),
+            Want::Conn(vec![CALM], false),
+        );
+        // exactly the threshold (3), all empty, the last one closing the block: a complete request
+        add(
+            "continuation_empty_at_threshold",
+            St::Ready,
+            [open_block(1, &request_block(false, "/cont")), many(2, frame(T_CONT, 0, 1, &[])), frame(T_CONT, 4, 1, &[])].concat(),
+            Want::Alive,
+        );
+        add("ping_at_threshold", St::Ready, many(8, ping(false)), Want::Alive);
+        // the client's own first SETTINGS counts: 7 more reach the threshold of 8, 8 more exceed it
+        add("settings_at_threshold", St::Ready, many(7, settings(&[])), Want::Alive);
+        add("settings_flood_by_one", St::Ready, many(8, settings(&[])), Want::Conn(vec![CALM], false));
+        add("wu_conn_at_threshold", St::Ready, many(8, wu(0, 1)), Want::Alive);
+        add("open_empty_data_at_threshold", St::Open, many(8, frame(T_DATA, 0, 1, &[])), Want::Alive);
+        // a DATA frame made of padding only carries no content either
+        add("open_padding_only_data_flood", St::Open, many(9, frame(T_DATA, 8, 1, &[0])), Want::Conn(vec![CALM], false));
+        let rr = |n: u32| {
+            let mut b = vec![];
+            for i in 0..n {
+                b.extend(frame(T_HEADERS, 5, 1 + 2 * i, &request_block(false, "/rr")));
+                b.extend(frame(T_RST, 0, 1 + 2 * i, &8u32.to_be_bytes()));
+            }
+            b
+        };
+        add("rapid_reset_at_threshold", St::Ready, rr(8), Want::Alive);
+        add("rapid_reset_by_one", St::Ready, rr(9), Want::Conn(vec![CALM], false));
+    }
     // SETTINGS value validation (RFC 9113 6.5.2): a max frame size of 0 must be refused before anything is framed with it
     add("settings_max_frame_0_then_request", St::Ready, [settings(&[(5, 0)]), frame(T_HEADERS, 5, 1, &request_block(false, "/mf0"))].concat(), Want::Conn(vec![PROTOCOL], false));
     add("settings_max_frame_2p24", St::Ready, settings(&[(5, 1 << 24)]), Want::Conn(vec![PROTOCOL], false));
